@@ -123,13 +123,25 @@ impl Scenario for WorkerScenario {
         };
         // per-task programs
         let mut programs: Vec<Vec<Op>> = vec![];
+        // now and then one worker lives through a very long history between two sentences: as many
+        // tokenizations of a short sentence as 8- and 16-bit generation counters need to wrap
+        let burst_run = rng.chance(1, 150);
         for t in 0..n_tasks {
             let mut r = rng.fork();
-            let n_sent = 1 + r.usize(6);
+            let n_sent = 1 + r.usize(6) + usize::from(burst_run);
             let sents = gen_sentence_seq(&mut r, &info, n_sent);
             let mut prog = vec![];
             let mut counter = false;
-            for s in &sents {
+            let burst_after = if burst_run && t == 0 { r.usize(n_sent - 1) } else { usize::MAX };
+            for (si, s) in sents.iter().enumerate() {
+                if si > 0 && si - 1 == burst_after {
+                    let short: String = sents.iter().flat_map(|x| x.chars()).find(|c| !c.is_whitespace()).unwrap_or('a').to_string();
+                    prog.push(Op::new("Reset").task(t).s(&short));
+                    // N tokenizations here + the next sentence's = N + 1 lattice resets
+                    let n = *r.pick(&[65535i64, 65535, 65535, 65534, 65536, 255, 256, 131071]);
+                    prog.push(Op::new("Burst").task(t).n(&[n]));
+                    prog.push(Op::new("ReadAll").task(t));
+                }
                 if r.chance(1, 12) {
                     prog.push(Op::new("Recreate").task(t));
                     counter = false;
@@ -273,6 +285,27 @@ impl Scenario for WorkerScenario {
                     ctx.state_changes += 1;
                     ctx.event(&op.brief(), &format!("{} tokens", st.worker.num_tokens()));
                 }
+                "Burst" => {
+                    if st.sentence.is_none() {
+                        continue;
+                    }
+                    let n = op.num(0).clamp(0, 200_000);
+                    let w = &mut st.worker;
+                    catch(|| {
+                        for _ in 0..n {
+                            w.tokenize();
+                        }
+                    })
+                    .map_err(|p| panic_violation("C04.tokenize", &op.brief(), &p))?;
+                    if n > 0 {
+                        st.tokenized = true;
+                    }
+                    if n >= 65535 {
+                        ctx.count("probe.history_of_65535_tokenizations");
+                    }
+                    ctx.state_changes += 1;
+                    ctx.event(&op.brief(), &format!("{} tokens", st.worker.num_tokens()));
+                }
                 "InitCounter" => {
                     let w = &mut st.worker;
                     catch(|| w.init_connid_counter())
@@ -409,6 +442,7 @@ impl Scenario for WorkerScenario {
                 "probe.tokenize_again",
                 "probe.zero_token_result",
                 "probe.worker_recreated",
+                "probe.history_of_65535_tokenizations",
                 "probe.update_counts",
                 "probe.three_tasks_five_switches",
                 "probe.multi_task_run",
